@@ -231,13 +231,44 @@ static std::string run_case(const std::string& line) {
     return out;
 }
 
+// Supervisor: the cases are run by a forked worker; when the worker dies on case k (sanitizer report,
+// signal) the supervisor prints "CRASH(<status>): <sanitizer summary>" for that case and forks a new
+// worker for case k+1.  The supervisor itself never runs iovector code, so one process handles a whole
+// case file however many cases trap (a restart costs a fork, not a new process + a new case file).
+#include <unistd.h>
+#include <sys/wait.h>
+#include <sys/mman.h>
 int main(int argc, char** argv) {
     log_output_level = ALOG_FATAL + 1;
-    std::ifstream in(argv[1]); std::string line;
-    while (std::getline(in, line)) {
-        if (line.empty() || line[0] == '#') continue;
-        std::string r = run_case(line);
-        puts(r.c_str()); fflush(stdout);
+    std::vector<std::string> cases;
+    { std::ifstream in(argv[1]); std::string line;
+      while (std::getline(in, line)) { if (line.empty() || line[0] == '#') continue; cases.push_back(line); } }
+    volatile size_t* done = (volatile size_t*)mmap(nullptr, sizeof(size_t), PROT_READ | PROT_WRITE, MAP_SHARED | MAP_ANONYMOUS, -1, 0);
+    *done = 0;
+    char errname[64]; snprintf(errname, sizeof errname, "/tmp/C14_err_%d.txt", (int)getpid());
+    while (*done < cases.size()) {
+        fflush(stdout);
+        pid_t pid = fork();
+        if (pid == 0) {
+            if (!freopen(errname, "w", stderr)) _exit(3);
+            for (size_t k = *done; k < cases.size(); k++) {
+                std::string r = run_case(cases[k]);
+                puts(r.c_str()); fflush(stdout);
+                *done = k + 1;
+            }
+            _exit(0);
+        }
+        int status = 0; waitpid(pid, &status, 0);
+        if (*done >= cases.size()) break;
+        // worker died on case *done
+        std::string msg;
+        { std::ifstream ef(errname); std::string l;
+          while (std::getline(ef, l)) if (l.find("ERROR") != std::string::npos || l.find("runtime error") != std::string::npos) { msg = l; break; } }
+        if (msg.size() > 200) msg.resize(200);
+        int code = WIFEXITED(status) ? WEXITSTATUS(status) : -(int)WTERMSIG(status);
+        printf("CRASH(%d): %s\n", code, msg.c_str()); fflush(stdout);
+        *done = *done + 1;
     }
+    unlink(errname);
     return 0;
 }
